@@ -604,8 +604,10 @@ static bool runCase(const Case &c, Ctx &ctx) {
         const int src = slotOf(o, 2);
         MJ *sm = w.node(src);
         if (!sm || sm->depth() > 4) break;
-        val = *sm;                                                 // copied before the target changes (src may be inside it)
-        if (sm == m && val.t == M_NONE) val.t = M_OBJ;             // j.set(key, j) on an empty j: j becomes {} first, {} is copied
+        // an empty target becomes {} before the value is copied (occaJsonObjectSet: asObject(), then j[key] = value): when the
+        // source is the target or contains it (j.set(key, j); child.set(key, root)), the copy already holds the {}
+        if (m->t == M_NONE) m->t = M_OBJ;
+        val = *sm;                                                 // copied before the target changes further (src may be inside it)
         v = w.s[src].h;
         // a still-empty occaCreateJson() is stored as such: the key exists, reads back as an OCCA_JSON child without any type flag
         ctx.cls(sm->t == M_NONE ? "set-uninitialised-json" : "set-nested-json");
@@ -686,6 +688,7 @@ static bool runCase(const Case &c, Ctx &ctx) {
         const int src = slotOf(o, 1);
         MJ *sm = w.node(src);
         if (!sm || sm->t == M_NONE || sm->depth() > 4) break;
+        if (m->t == M_NONE && sm->anyNone()) break;                // the empty target may sit inside the source (initialised before the copy)
         val = *sm; v = w.s[src].h;
         ctx.cls("push-nested-json");
       }
